@@ -923,12 +923,8 @@ def headers_store_identity(ctx, rid):
     ps = nonpanic(walk(f))
     ls = [path_sig(p)[1] for p in ps]
     ctx.check(rid, "Headers::get looks the key up unchanged",
-              ls == ["return Option::map(HashMap::get(self.0,AsRef::as_ref(key)),closure:Headers::{closure#0})"],
+              sorted(ls) == ["return Option::None", "return Option::Some(String::as_str(ok(HashMap::get(self.0,AsRef::as_ref(key)))))"],
               "Headers::get is no longer `self.0.get(key.as_ref()).map(String::as_str)`: %s" % ls, where(f))
-    cl = ctx.A.fn("wtransport_proto::headers::Headers::get::{closure#0}")
-    ls = [path_sig(p)[1] for p in nonpanic(walk(cl))]
-    ctx.check(rid, "Headers::get returns the stored value unchanged", ls == ["return String::as_str(s)"],
-              "Headers::get transforms the stored value: %s" % ls, where(cl))
     # the map type: exact-match keys (a case-insensitive or normalising map type would change the guard semantics as well)
     adt = ctx.A.adt("wtransport_proto::headers::Headers")
     ty = adt["variants"][0]["fields"][0]["ty"]
